@@ -111,11 +111,24 @@ SEV_HANDLER(sieve_random)
             k = 1 + rnd(3);
             if (!alive[(int)k]) {
                 a = "IterNew";
-                static const unsigned lims[] = {0, 0, 20, 50, 97, 200};
+                static const unsigned lims[] = {0, 0, 20, 50, 97, 400};
                 n = lims[rnd(6)];
                 alive[(int)k] = true;
             } else if (w < 95) {
                 a = "IterNext";
+                // a burst of reads, so that iterators run far ahead of the
+                // ten primes that survive a clear()
+                if (rnd(3) == 0) {
+                    unsigned burst = 3 + rnd(40);
+                    for (unsigned b = 0; b < burst; b++) {
+                        J s2 = J::obj();
+                        s2.set("a", a);
+                        s2.set("k", k);
+                        s2.set("n", 0);
+                        s2.set("out", J::arr());
+                        steps.push(s2);
+                    }
+                }
             } else {
                 a = "IterDestroy";
                 alive[(int)k] = false;
